@@ -235,6 +235,8 @@ pub struct RunCfg {
     pub start_class: &'static str,
     pub max_plies: u32,
     pub long_then_mate: bool,
+    /// reversible plies to shuffle before steering into mate (100, or beyond 150 in the marathon variant)
+    pub long_threshold: u32,
 }
 
 pub enum End {
@@ -342,6 +344,7 @@ impl World {
             start_class: "",
             max_plies: 0,
             long_then_mate: false,
+            long_threshold: 100,
         };
         let mut cfg = cfg;
         cfg.max_plies = prof.max_plies;
@@ -351,6 +354,15 @@ impl World {
             cfg.long_then_mate = true;
             cfg.max_plies = 260;
             cfg.policy = 3;
+            // marathon variant (C10 only): nobody claims, resigns or accepts, and the shuffling goes on beyond 150
+            // reversible plies - a game is over only through an action or a position without moves, however long it lasts
+            if prof.prop == 10 && cfg_rng_chance(&mut rng_for_cfg(seed ^ 0x75), 3) {
+                cfg.long_threshold = 152 + (seed % 7) as u32;
+                cfg.max_plies = 340;
+                cfg.w_claim = 0;
+                cfg.w_resign = 0;
+                cfg.w_accept = 0;
+            }
         }
         World {
             rng,
@@ -536,7 +548,14 @@ impl World {
             3 => (gen::endgame(&mut self.rng), "endgame"),
             _ => {
                 // the long-game profile favours the rights-and-shufflers family (kind 8)
-                let forced = if self.prof.prop == 11 && self.rng.chance(1, 2) { Some(8) } else { None };
+                let forced = if self.prof.prop == 11 && self.rng.chance(1, 2) {
+                    Some(8)
+                } else if [2usize, 4, 6, 11].contains(&self.prof.prop) && self.rng.chance(1, 6) {
+                    // families added late (round 8 of DESIGN section 19); drawn only here so that the other profiles keep their runs
+                    if self.prof.prop == 11 && self.rng.chance(1, 2) { Some(23) } else { Some(21 + self.rng.below(4)) }
+                } else {
+                    None
+                };
                 gen::pattern_with(&mut self.rng, forced)
             }
         };
@@ -635,7 +654,7 @@ impl World {
         loop {
             let over = self.exec.srv.model.as_ref().map_or(true, |g| !g.open());
             let plies = self.exec.stats.plies;
-            let max_events = if self.cfg.long_then_mate { 2600 } else { self.prof.max_events };
+            let max_events = if self.cfg.long_threshold > 100 { 3600 } else if self.cfg.long_then_mate { 2600 } else { self.prof.max_events };
             let budget_out = self.events >= max_events || plies >= self.cfg.max_plies as u64;
             if (budget_out || self.heap.is_empty()) && !tail_started {
                 // the quiescent tail: faults stop, partitions heal, crashed nodes restart, clients resync
@@ -886,7 +905,8 @@ impl World {
         // at the very start of a game a tour is likely: it brings the START position back (whose first occurrence
         // may carry state - en-passant possibility, rights - that its recurrences lack or share)
         let at_start = self.exec.srv.model.as_ref().map_or(false, |g| g.history.len() <= 1);
-        let den = if at_start { 2 } else { 12 };
+        // (always when the start position carries en-passant state: its recurrences cannot have it)
+        let den = if at_start && pos.ep.is_some() { 1 } else if at_start { 2 } else { 12 };
         if my_turn && self.cfg.policy == 3 && !self.cfg.long_then_mate && self.rng.chance(1, den) {
             let plan = if at_start && self.rng.chance(2, 3) { self.plan_out_and_back(pos) } else { self.plan_tour(pos) };
             if let Some(t) = plan {
@@ -904,7 +924,7 @@ impl World {
         let mut policy = if self.rng.chance(1, 8) { 0 } else { self.cfg.policy };
         if self.cfg.long_then_mate {
             let clock = self.exec.srv.model.as_ref().map_or(0, |g| g.clock);
-            policy = if clock >= 100 { 2 } else { 3 };
+            policy = if clock >= self.cfg.long_threshold { 2 } else { 3 };
         }
         match policy {
             1 => {
